@@ -113,7 +113,7 @@ PROPS = {
         families=[('floor', 400, 12000, 'small', 'large')],
         rule='F_floor scenarios: layered production lines (sources incl. cycle 0 and finite budgets, handlers, processors with resources/callbacks/work orders, buffers with delay and capacity, batchers, decision gates, flow controllers, shared groups reached through several paths, sinks), scripted failures/shutdowns/restores/blocking/capacity changes, many single steps then runs, generated from VERIF_SEED (corpus/floor first); '
              'non-trivial = at least 8 parts received by devices and 3 supplied by sources; distinct by scenario text',
-        explanation='Local wake-up theorems (refused hand-over sets the waiting flag; a signalled waiting device schedules an attempt now; restore/unblock/budget raise end in a signal). The global "every blocked part is genuinely blocked when time advances" is decided by the liveness monitor on the implementation and the lock-step. PARTIAL.',
+        explanation='Local wake-up theorems (refused hand-over sets the waiting flag and was refused by every neighbour; a signalled waiting device schedules an attempt now; restore/unblock/budget raise end in a signal). Queue-level invariant for every state reached without an exception, incl. inside a run: a device holding a ready part is flagged waiting or has its own PASS_PART event pending (unless shut down / budget used up) - no ready part is forgotten. The last global step "a flagged part would still be refused when time advances" is decided by the liveness monitor on the implementation and the lock-step. PARTIAL for that step and for termination.',
         assumptions=['well-posed layouts', 'mid-run rewiring not generated', 'termination: harness step bound']),
     'C06': dict(
         vfile='Props/C06.v', ties=['Tie/TieEnv.v', 'Tie/TieFloor.v'],
@@ -245,9 +245,9 @@ LEVELS = {
         design_ref='DESIGN.md sections 0.3 and 8, C17', technique='Coq proof (batcher invariant stable under all guarded transformers) + lock-step correspondence with PartBatcher',
         note='Trusted: Coq kernel, pyfacts.py, extraction + OCaml driver, Python harness.'),
     'C03': dict(
-        text='PARTIAL. Machine-checked: the local wake-up rules of the floor model (waiting flag after a refusal, attempt scheduled at the same instant on every signal, signals after restore/unblock/budget raise; availability checks after resource changes via C10). The global no-lost-wake-up statement at clock advances and run termination are decided by the liveness monitor on the implementation plus lock-step.',
-        design_ref='DESIGN.md sections 0.3 and 8, C03', technique='Coq proof (wake-up lemmas over the floor model) + lock-step correspondence + liveness monitor at every clock advance',
-        note='Partial: global liveness not a theorem.'),
+        text='PARTIAL. Machine-checked: the local wake-up rules of the floor model (waiting flag after a refusal by every neighbour, attempt scheduled at the same instant on every signal, signals after restore/unblock/budget raise; availability checks after resource changes via C10), and the queue-level invariant "no ready part is forgotten" for every exception-free reachable state including every state inside a run (flagged waiting, or own PASS_PART event pending, or shut down / budget used up). That a flagged part would still be refused whenever time advances, and run termination, are decided by the liveness monitor on the implementation plus lock-step.',
+        design_ref='DESIGN.md sections 0.3 and 8, C03', technique='Coq proof (wake-up lemmas; device/event-queue link invariant over a two-level step decomposition with compound steps) + lock-step correspondence + liveness monitor at every clock advance',
+        note='Partial: stability of refusals between signals and termination are not theorems.'),
     'C06': dict(
         text='PARTIAL. Machine-checked: timer = accept time + max(0, cycle + offset) under the device id, offset one-shot, FINISH requires exactly the part in process on an operational device, shutdown pauses / failure cancels (also during a shutdown: repaired defect D4), resumed events keep remaining delay and cancelled events never run (C07). The whole-run exact-timing statement is decided by the cycle-time monitor + lock-step.',
         design_ref='DESIGN.md sections 0.3 and 8, C06', technique='Coq proof (timer and interruption lemmas + C07 event-queue theorems) + lock-step correspondence + cycle-time monitor',
